@@ -464,6 +464,12 @@ class SymInt(SymNum):
         return str(ctx().concretize(self))
 
 
+def _as_real_sym(x):
+    if isinstance(x, SymInt):
+        return SymReal(z3.ToReal(x.t))
+    return x
+
+
 def sym_min(a, b):
     """min without forking."""
     return (a <= b).ite(a, b) if isinstance(a, Sym) or isinstance(b, Sym) else min(a, b)
@@ -523,7 +529,7 @@ class SymCtx:
         self.unknown_branches = 0
         self._sqrts: list[tuple[Any, Any]] = []
         self._trigs: list[tuple[Any, Any, Any]] = []
-        self._arccos = z3.Function("arccos", z3.RealSort(), z3.RealSort())
+        self._acos: list[tuple[Any, Any]] = []
         self._pi = None
         self.assumptions: list[str] = []
         self.nonlinear = False
@@ -597,9 +603,18 @@ class SymCtx:
         self.solver_s += time.time() - t0
         return r
 
-    def check_all(self, timeout_ms, want_model=False):
-        """Satisfiability of the whole path condition, component by component (fresh solvers)."""
-        comps = _components(self._flat)
+    def _nice_box(self):
+        out = []
+        for name, v in self.inputs.items():
+            if z3.is_real(v) and z3.is_const(v) and name != "PI":
+                out.append(z3.And(v >= -16, v <= 16, z3.Or(v == 0, v >= z3.Q(1, 16), v <= z3.Q(-1, 16))))
+        return out
+
+    def check_all(self, timeout_ms, want_model=False, nice=False):
+        """Satisfiability of the whole path condition, component by component (fresh solvers).
+        nice: additionally restrict real inputs to moderate magnitudes (used to pick witnesses that
+        survive float32 replay; never used to decide feasibility)."""
+        comps = _components(self._flat + (self._nice_box() if nice else []))
         models = []
         worst = z3.sat
         for comp in comps:
@@ -894,7 +909,29 @@ class SymCtx:
         return th, c, s
 
     def arccos(self, x: SymReal) -> SymReal:
-        return SymReal(self._arccos(x.t))
+        """arccos as an opaque function: one real variable per argument, shared between arguments that the
+        solver proves equal under the path condition (congruence by hash-consing, like sqrt).  Only
+        0 <= theta <= PI and the three special values are known about it."""
+        e = z3.simplify(x.t)
+        if z3.is_rational_value(e):
+            num, den = e.numerator_as_long(), e.denominator_as_long()
+            if num == den:
+                return SymReal(realval(0))
+            if num == -den:
+                return self.pi()
+            if num == 0:
+                return self.pi() / 2
+        for arg, var in self._acos:
+            if arg.eq(e):
+                return SymReal(var, True)
+        for arg, var in self._acos:
+            if self._check_sliced(arg != e, 3000) == z3.unsat:
+                self._acos.append((e, var))
+                return SymReal(var, True)
+        var = z3.Real(self.fresh("acos"))
+        self.add(z3.And(var >= 0, var <= self.pi().t))
+        self._acos.append((e, var))
+        return SymReal(var, True)
 
     # -- obligations -----------------------------------------------------------
     def model_dict(self, m) -> dict:
@@ -1015,11 +1052,22 @@ class SymCtx:
             return r, out, ""
         return r, None, (solver.reason_unknown() if r == z3.unknown else "")
 
-    def prove_eq(self, name: str, a, b, detail: str = "") -> bool:
+    def prove_eq(self, name: str, a, b, detail: str = "", tol=None) -> bool:
         if not is_sym(a) and not is_sym(b):
             ok = _concrete_close(a, b)
             return self.prove(name, bool(ok), detail or f"{a!r} != {b!r}")
         return self.prove(name, _binop(a, b, lambda x, y: x == y), detail)
+
+    def lemma(self, cond, timeout_ms=20000) -> bool:
+        """Proves `cond` from the path condition and, only if proved, adds it as an assertion so that
+        later queries can use it (e.g. Cauchy-Schwarz before a cosine is clipped)."""
+        if isinstance(cond, (bool, _np.bool_)):
+            return bool(cond)
+        r = self._check_sliced(z3.Not(cond.t), timeout_ms)
+        if r == z3.unsat:
+            self.add(cond.t)
+            return True
+        return False
 
     def reachable(self, name: str, cond=True):
         """Reachability twin: records that `cond` is satisfiable on this path."""
@@ -1172,6 +1220,7 @@ class PathResult:
     message: str = ""
     unknown_branches: int = 0
     nonlinear: bool = False
+    witness_nice: bool = False
 
 
 def run_path(fn: Callable, params: dict, prefix: list, opts: Options, want_witness=True) -> PathResult:
@@ -1190,23 +1239,40 @@ def run_path(fn: Callable, params: dict, prefix: list, opts: Options, want_witne
     finally:
         _CTX = None
     witness = None
+    nice = False
     if status == "ok":
         if c.nonlinear:
             r, witness = c.check_all(opts.oblig_timeout_ms, want_model=want_witness)
+            if r == z3.sat and want_witness:
+                r2, w2 = c.check_all(min(5000, opts.oblig_timeout_ms), want_model=True, nice=True)
+                if r2 == z3.sat and w2 is not None:
+                    witness, nice = w2, True
         else:
             r = c._check(timeout_ms=opts.oblig_timeout_ms)
             if r == z3.sat and want_witness:
                 witness = c.model_dict(c.solver.model())
+                if any(z3.is_real(v) for v in c.inputs.values()):
+                    box = c._nice_box()
+                    if c.solver.check(*box) == z3.sat:
+                        witness, nice = c.model_dict(c.solver.model()), True
+                else:
+                    nice = True
         if r == z3.unsat:
             status = "abort"  # lazily discovered infeasible path
         elif r == z3.unknown:
-            status, msg = "inconclusive", "feasibility of the path condition unknown"
+            # every obligation on this path was decided as `pc |= phi`, which is valid whether or not pc is
+            # satisfiable; only the witness (and its validation) is missing.  Vacuity is guarded separately
+            # by the reachability twins.
+            c.notes.append("feasibility-unknown")
+            witness = None
     elif status == "outside":
         r = c.check_all(opts.branch_timeout_ms)[0] if c.nonlinear else c._check(timeout_ms=opts.branch_timeout_ms)
         if r == z3.unsat:
             status = "abort"
     outs = {k: _render(v, c) for k, v in c.outputs.items()} if status == "ok" else None
-    return PathResult(status, c.trace, c.obligations, c.notes, c.queries, c.solver_s, len(c.trace), witness, outs, msg, c.unknown_branches, c.nonlinear)
+    pr = PathResult(status, c.trace, c.obligations, c.notes, c.queries, c.solver_s, len(c.trace), witness, outs, msg, c.unknown_branches, c.nonlinear)
+    pr.witness_nice = nice
+    return pr
 
 
 def _render(v, c):
